@@ -131,14 +131,49 @@ func (u *Unit) SinkOps() []SinkOp {
 }
 
 func (r *Run) sinkOpsOf(fd *FuncDecl) []string {
+	return r.sinkOpsRec(fd, map[*FuncDecl]bool{}, 0)
+}
+
+func (r *Run) sinkOpsRec(fd *FuncDecl, onPath map[*FuncDecl]bool, depth int) []string {
+	if onPath[fd] || depth > 4 {
+		return nil
+	}
+	onPath[fd] = true
+	defer delete(onPath, fd)
 	var out []string
 	for _, u := range r.G.unitsOf(fd) {
 		pfx := ""
 		if u.Lit != nil {
 			pfx = "lit:"
 		}
+		// operations and helper calls in source order
+		type item struct {
+			pos    int
+			text   string
+			helper *FuncDecl
+		}
+		var items []item
 		for _, op := range u.SinkOps() {
-			out = append(out, pfx+op.Text)
+			items = append(items, item{int(op.Pos.Pos()), pfx + op.Text, nil})
+		}
+		ast.Inspect(u.Body, func(n ast.Node) bool {
+			if lit, ok := n.(*ast.FuncLit); ok && lit != u.Lit {
+				return false
+			}
+			if c, ok := n.(*ast.CallExpr); ok {
+				if h := r.unexportedHelper(u.Info, c); h != nil {
+					items = append(items, item{int(c.Pos()), "", h})
+				}
+			}
+			return true
+		})
+		sort.SliceStable(items, func(i, j int) bool { return items[i].pos < items[j].pos })
+		for _, it := range items {
+			if it.helper != nil {
+				out = append(out, r.sinkOpsRec(it.helper, onPath, depth+1)...)
+			} else {
+				out = append(out, it.text)
+			}
 		}
 	}
 	return out
